@@ -1112,3 +1112,144 @@ def rule_c15_builds(r):
         missing = [f for f in (ref or []) if f not in fns and f + "f" not in fns]
         r.check(ref is not None and not missing, "sasmodels/generate.py", "convert_type", "%s: %d functions in the single-precision unit" % (base, len(fns)), 0,
                 "same functions as the double-precision unit" if not missing else "missing after conversion: %s" % missing[:5])
+
+
+# --------------------------------------------------------------------------------------------- C20: table rows through time
+def rule_c20_rows(r):
+    """The constant-folded conversion table against the confirmed reference (sa/reftable.json): the legacy model and parameter
+    names are not recorded anywhere else in the repository, so a row that silently stops translating a legacy name (an
+    overriding entry lost in a rewritten dict expression) can only be seen against what the table said before.  For every
+    (version, model) row of the reference the current table has the same legacy model name and every (new name -> old name)
+    pair of the reference row; new rows and new pairs are not differences."""
+    import json
+    from .. import tables
+    p = os.path.join(os.path.dirname(os.path.dirname(os.path.abspath(__file__))), "reftable.json")
+    try:
+        with open(p) as fd:
+            ref = json.load(fd)
+    except (OSError, ValueError) as exc:
+        raise AnalysisError("reference conversion table unreadable: %s" % exc)
+    table, _ = tables.conversion_table()
+    cur = {".".join(map(str, v)): rows for v, rows in table.items()}
+    T = "sasmodels/conversion_table.py"
+    n = 0
+    for version, rows in sorted(ref.items()):
+        if version not in cur:
+            r.violation(T, "CONVERSION_TABLE", "version %s" % version, 0, "the reference table has conversions for this version")
+            continue
+        for model, (old_model, pairs) in sorted(rows.items()):
+            fn = "CONVERSION_TABLE[(%s)][%s]" % (version.replace(".", ", "), model)
+            e = cur[version].get(model)
+            if e is None:
+                r.violation(T, fn, "row for %s" % model, 0, "row removed: sets saved for %s are no longer translated" % old_model)
+                continue
+            n += 1
+            lost = []
+            for new, old in sorted(pairs.items()):
+                if new not in e[1] or e[1][new] != old:
+                    lost.append("%s: %r (now %r)" % (new, old, e[1].get(new, "<absent>")))
+            ok = e[0] == old_model and not lost
+            r.check(ok, T, fn, "legacy model %s, %d name pairs" % (old_model, len(pairs)), 0,
+                    "every confirmed (new -> legacy) pair is still in the row" if ok else
+                    ("legacy model name is now %r" % e[0] if e[0] != old_model else
+                     "pairs lost or changed: %s - the legacy names on the right are no longer translated" % "; ".join(lost[:4])))
+    if n < 60:
+        raise AnalysisError("R-C20-rows: only %d rows compared" % n)
+
+
+# --------------------------------------------------------------------------------------------- C07/C14: min/max effective-radius modes
+def minmax_unit(unit, extra):
+    """Worker: an effective-radius mode whose name says `min` (`max`) returns the smaller (larger) of its candidates.  The C
+    function is interpreted symbolically for that mode; every selection `c ? A : B` in the result must be decided by a
+    comparison whose sign agrees with the sign of A - B for all positive parameter values (the ratio (A-B)/(lhs-rhs) is
+    sign-definite), with the polarity the mode name asks for.  A selection keyed on something else (a flag derived from
+    one of several parameters) picks the wrong candidate for some shapes."""
+    import re
+    from ..nf import CInterp
+    out = []
+    modes = (extra or {}).get("modes", {}).get(unit.name)
+    if not modes or "radius_effective" not in unit.functions or unit.body(unit.fn("radius_effective")) is None:
+        return out
+    f = unit.fn("radius_effective")
+    ff, ll = unit.where(f)
+    pn = [p["name"] for p in unit.params(f)]
+
+    def fname(e):
+        return getattr(getattr(e, "func", None), "__name__", "")
+
+    def pos(e):
+        return e.xreplace({s_: sp.Symbol(s_.name, positive=True) for s_ in e.free_symbols})
+
+    def verify(e, kind, problems):
+        """-> value expression with verified selections replaced by an opaque positive symbol"""
+        if e.is_Mul:
+            consts = [a for a in e.args if a.is_Number]
+            rest = [a for a in e.args if not a.is_Number]
+            if consts and all(c > 0 for c in consts) and len(rest) == 1 and fname(rest[0]) in ("where", "Min", "Max"):
+                return sp.Mul(*consts) * verify(rest[0], kind, problems)
+        if isinstance(e, (sp.Min, sp.Max)):
+            want = sp.Min if kind == "min" else sp.Max
+            if not isinstance(e, want):
+                problems.append("%s used in a %s mode" % (type(e).__name__, kind))
+            return sp.Symbol("sel_%d" % abs(hash(str(e))), positive=True)
+        if fname(e) != "where":
+            return e
+        c, a, b = e.args
+        cn = fname(c)
+        if cn not in ("c_lt", "c_gt", "c_le", "c_ge"):
+            problems.append("selection on `%s`, which is not an ordering comparison" % c)
+            return sp.Symbol("sel_%d" % abs(hash(str(e))), positive=True)
+        l, r_ = (verify(x, kind, problems) for x in c.args)
+        av, bv = verify(a, kind, problems), verify(b, kind, problems)
+        try:
+            rho = sp.simplify(pos(sp.together(av - bv)) / pos(sp.together(l - r_)))
+        except Exception:
+            rho = None
+        # picks A when l < r (lt/le) or when l > r (gt/ge); a min needs A <= B then
+        want_positive = (cn in ("c_lt", "c_le")) == (kind == "min")
+        ok = rho is not None and (rho.is_positive if want_positive else rho.is_negative)
+        if not ok:
+            problems.append("`%s ? %s : %s`: (A - B)/(lhs - rhs) = %s is not %s for all positive parameters" % (
+                str(c).replace("c_lt", "lt").replace("c_gt", "gt"), a, b, rho, "positive" if want_positive else "negative"))
+        return sp.Symbol("sel_%d" % abs(hash(str(e))), positive=True)
+
+    for i, name in enumerate(modes, 1):
+        m = re.search(r"\b(min|max)\b", name)
+        if not m:
+            continue
+        kind = m.group(1)
+        try:
+            it = CInterp(unit.functions, facts={"mode": i})
+            got = it.call("radius_effective", [sp.Integer(i)] + [sym(p) for p in pn[1:]])
+        except AnalysisError as exc:
+            out.append(("R-C14-minmax", "note", ff, "%s:radius_effective" % unit.name, "mode %d %r" % (i, name), ll, "cannot evaluate: %s" % exc))
+            continue
+        problems = []
+        if got is None:
+            problems.append("no value returned")
+        else:
+            sel = [t for t in sp.preorder_traversal(got) if fname(t) == "where" or isinstance(t, (sp.Min, sp.Max))]
+            if not sel:
+                problems.append("returns %s without selecting among candidates" % got)
+            verify(got, kind, problems)
+        out.append(("R-C14-minmax", "violation" if problems else "ok", ff, "%s:radius_effective" % unit.name, "mode %d %r" % (i, name), ll,
+                    "; ".join(problems)[:400] if problems else "every selection is decided by the ordering of its own candidates"))
+    return out
+
+
+_minmax_cache = None
+
+
+def rule_c14_minmax(r):
+    global _minmax_cache
+    if _minmax_cache is None:
+        from .. import cfront
+        from . import c14
+        modes = c14._c_results().get("__modes__")
+        if modes is None:
+            raise AnalysisError("mode lists unavailable")
+        _minmax_cache = cfront.map_units("sa.rules.extra3:minmax_unit", extra={"modes": modes})
+    for unit, rows in sorted(_minmax_cache.items()):
+        for row in rows:
+            _, status, f, fn, construct, line, detail = row
+            getattr(r, status)(f, fn, construct, line, detail)
